@@ -85,7 +85,7 @@ pub(crate) fn parse_directive(jsx_attr: &JSXAttr, is_component: bool) -> Directi
         if let Expr::Array(ArrayLit { elems, .. }) = &**expr {
             value = match elems.first() {
                 Some(Some(ExprOrSpread { spread: None, expr })) => (**expr).clone(),
-                _ => Expr::Ident(quote_ident!("").into()),
+                _ => void_zero(),
             };
             if let Some(Some(ExprOrSpread { spread: None, expr })) = elems.get(1) {
                 match &**expr {
@@ -115,7 +115,8 @@ pub(crate) fn parse_directive(jsx_attr: &JSXAttr, is_component: bool) -> Directi
         value = match &jsx_attr.value {
             // `v-foo="bar"`: the string is the directive's value
             Some(JSXAttrValue::Lit(lit)) => Expr::Lit(lit.clone()),
-            _ => Expr::Ident(quote_ident!("").into()),
+            // no value: the binding's value is `undefined`
+            _ => void_zero(),
         };
     }
 
@@ -127,15 +128,7 @@ pub(crate) fn parse_directive(jsx_attr: &JSXAttr, is_component: bool) -> Directi
             .unwrap_or_default()
         {
             argument.or_else(|| {
-                Some(Expr::Unary(UnaryExpr {
-                    span: DUMMY_SP,
-                    op: op!("void"),
-                    arg: Box::new(Expr::Lit(Lit::Num(Number {
-                        span: DUMMY_SP,
-                        value: 0.0,
-                        raw: None,
-                    }))),
-                }))
+                Some(void_zero())
             })
         } else {
             argument
@@ -157,6 +150,19 @@ fn lower_first_letter(name: &str) -> String {
         }
         None => String::new(),
     }
+}
+
+/// `void 0`
+fn void_zero() -> Expr {
+    Expr::Unary(UnaryExpr {
+        span: DUMMY_SP,
+        op: op!("void"),
+        arg: Box::new(Expr::Lit(Lit::Num(Number {
+            span: DUMMY_SP,
+            value: 0.0,
+            raw: None,
+        }))),
+    })
 }
 
 fn parse_modifiers(exprs: &[Option<ExprOrSpread>]) -> BTreeSet<Atom> {
@@ -266,7 +272,15 @@ fn parse_v_model_directive(
     if let Expr::Array(ArrayLit { elems, .. }) = attr_value {
         value = match elems.first() {
             Some(Some(ExprOrSpread { spread: None, expr })) => (**expr).clone(),
-            _ => Expr::Ident(quote_ident!("").into()),
+            _ => {
+                HANDLER.with(|handler| {
+                    handler.span_err(
+                        jsx_attr.span,
+                        "The first element of the `v-model` array must be the bound expression.",
+                    );
+                });
+                Expr::Ident(quote_ident!("").into())
+            }
         };
         if let Some(Some(ExprOrSpread { spread: None, expr })) = elems.get(1) {
             match &**expr {
@@ -307,15 +321,7 @@ fn parse_v_model_directive(
                 .unwrap_or_default()
         {
             argument.or_else(|| {
-                Some(Expr::Unary(UnaryExpr {
-                    span: DUMMY_SP,
-                    op: op!("void"),
-                    arg: Box::new(Expr::Lit(Lit::Num(Number {
-                        span: DUMMY_SP,
-                        value: 0.0,
-                        raw: None,
-                    }))),
-                }))
+                Some(void_zero())
             })
         } else {
             argument
